@@ -185,28 +185,17 @@ impl BitWrite for BitBuffer {
 
     #[inline]
     fn write_bits(&mut self, src: &[u8]) -> Result<(), Error> {
-        self.ensure_can_write_additional_bits(src.len() * BYTE_LEN);
-        BitWrite::write_bits(&mut (&mut self.buffer[..], &mut self.write_position), src)
+        self.write_bits_with_offset_len(src, 0, src.len() * BYTE_LEN)
     }
 
     #[inline]
     fn write_bits_with_offset(&mut self, src: &[u8], src_bit_offset: usize) -> Result<(), Error> {
-        self.ensure_can_write_additional_bits(src.len() * BYTE_LEN - src_bit_offset);
-        BitWrite::write_bits_with_offset(
-            &mut (&mut self.buffer[..], &mut self.write_position),
-            src,
-            src_bit_offset,
-        )
+        self.write_bits_with_offset_len(src, src_bit_offset, src.len() * BYTE_LEN - src_bit_offset)
     }
 
     #[inline]
     fn write_bits_with_len(&mut self, src: &[u8], bit_len: usize) -> Result<(), Error> {
-        self.ensure_can_write_additional_bits(bit_len);
-        BitWrite::write_bits_with_len(
-            &mut (&mut self.buffer[..], &mut self.write_position),
-            src,
-            bit_len,
-        )
+        self.write_bits_with_offset_len(src, 0, bit_len)
     }
 
     #[inline]
@@ -216,6 +205,10 @@ impl BitWrite for BitBuffer {
         src_bit_offset: usize,
         src_bit_len: usize,
     ) -> Result<(), Error> {
+        // do not grow the buffer for a write that is going to fail
+        if src.len() * BYTE_LEN < src_bit_offset + src_bit_len {
+            return Err(Error::insufficient_data_in_source_buffer());
+        }
         self.ensure_can_write_additional_bits(src_bit_len);
         BitWrite::write_bits_with_offset_len(
             &mut (&mut self.buffer[..], &mut self.write_position),
